@@ -41,12 +41,18 @@ Theorem C20_total n i p : paginate n i = Ok p -> p_total p = n.
 Proof. exact (total_is_length n i p). Qed.
 Print Assumptions C20_total.
 
-(* whatever after / before / first / last are given, a page is a contiguous run of the list that lies inside the
-   requested window: strictly after the `after` cursor, strictly before the `before` cursor *)
+(* whatever after / before / first / last are given: a page is a contiguous run of the list, and every element of it
+   lies strictly after the `after` cursor and strictly before the `before` cursor - also when `before` is at or
+   ahead of `after` (the window, and then the page, is empty) *)
 Theorem C20_window n i p : paginate n i = Ok p ->
-  exists lo len, p_items p = seq lo len /\ lo + len <= n /\
-    (forall a, i_after i = Some (Off a) -> a < n -> a < lo) /\
-    (forall a b, i_after i = Some (Off a) \/ i_after i = None -> i_before i = Some (Off b) -> b < n ->
-                 (match i_after i with Some (Off a') => a' < b | _ => True end) -> lo + len <= b).
+  (exists lo len, p_items p = seq lo len /\ lo + len <= n) /\
+  (forall a x, i_after i = Some (Off a) -> a < n -> In x (p_items p) -> a < x) /\
+  (forall b x, i_before i = Some (Off b) -> b < n -> In x (p_items p) -> x < b).
 Proof. exact (page_window n i p). Qed.
 Print Assumptions C20_window.
+
+(* the pinned paginator dropped the `before` bound when it was at or ahead of `after` *)
+Theorem C20_window_pinned_refuted : exists n i p b x,
+  paginate_pinned n i = Ok p /\ i_before i = Some (Off b) /\ b < n /\ In x (p_items p) /\ b <= x.
+Proof. exact pinned_window_refuted. Qed.
+Print Assumptions C20_window_pinned_refuted.
